@@ -152,15 +152,24 @@ func releaseFor(v int) (string, *kversion.Versions) {
 		vs := r.fn()
 		if max, ok := vs.LookupMaxKeyVersion(0); ok && int(max) >= v {
 			vs.SetMaxKeyVersion(0, int16(v))
+			// no client-telemetry plugin on the broker (KIP-714 keys are only advertised with one)
+			vs.SetMaxKeyVersion(71, -1)
+			vs.SetMaxKeyVersion(72, -1)
 			return r.name, vs
 		}
 	}
 	return "", nil
 }
 
+var advertisedCache [14]*kversion.Versions // read-only after creation; a worker process runs one case at a time
+
 func (b *built) advertised() *kversion.Versions {
-	_, vs := releaseFor(b.V)
-	return vs
+	if advertisedCache[b.V] == nil {
+		_, vs := releaseFor(b.V)
+		vs.HasKey(0) // force the lazy initialisation now
+		advertisedCache[b.V] = vs
+	}
+	return advertisedCache[b.V]
 }
 
 func topicName(i int) string { return fmt.Sprintf("c18-%d%s", i, strings.Repeat("x", 3*i)) }
@@ -645,7 +654,7 @@ func shapeList(thorough bool) []shapeMode {
 			add(false, "toolarge:%d", d)
 			add(true, "edge:%d:plain", d)
 		}
-		for _, d := range []int{-2, -1, 0, 1, 2, 3, 4, 6, 8, 12} {
+		for _, d := range []int{-2, -1, 0, 1, 2, 3, 4, 6, 8, 12, 20, 37} {
 			add(false, "pack:%d", d)
 		}
 		for _, d := range []int{-1, 0, 1, 8} {
